@@ -517,7 +517,7 @@ class StateEngine(object):
                 cls = "live-object"
             vio.append(violation(PROP, "result", "%s:%s:%s%s" % (op["op"], cls, field, tag),
                                  "thread %d op %d %s: result differs from the clean-room evaluation in %s (%d thread(s), context %s, PYTHONHASHSEED=%s): got %s, clean room %s" %
-                                 (i, k, short_op(op), field, n, actors[i]["env"], self.hashseed, clip(got, field), clip(ref, field))))
+                                 (i, k, short_op(op), field, n, actors[i]["env"], self.hashseed, clip(got, field, ref), clip(ref, field, got))))
         for i, k, what, msg in rep["inv"]:
             vio.append(violation(PROP, "global-state", what, "after thread %d op %d: %s" % (i, k, msg)))
         if rep["capped"] or not all(rep["finished"]):
@@ -633,20 +633,23 @@ def short_op(op):
     return "%s(%s)" % (op["op"], op.get("obj", ""))
 
 
-def clip(res, field):
+def clip(res, field, other=None):
+    """Readable excerpt of an op result, focused on the part that differs from `other`."""
     if "exc" in res:
         return "%s(%s)" % (res["exc"][0], res["exc"][1][:80])
     v = res.get("ok")
     if isinstance(v, dict):
-        keys = [k for k in field.split(",") if k in v]
-        if "as_json" in field.split(","):
-            keys.append("json_s1_m1")
+        o = other.get("ok") if isinstance(other, dict) else None
+        if isinstance(o, dict):
+            keys = [k for k in sorted(v) if v.get(k) != o.get(k) and not k.endswith("_text")][:2]
+        else:
+            keys = [k for k in field.split(",") if k in v]
         if keys:
             v = dict((k, v[k]) for k in keys)
         elif "items" in v:
             v = v["items"]
     s = runner23.dumps(v)
-    return s if len(s) < 220 else s[:217] + "..."
+    return s if len(s) < 260 else s[:257] + "..."
 
 
 def make_engine(seed=0, force_threads=None):
